@@ -156,32 +156,12 @@ Theorem order_and_missing_are_irrelevant : forall col col',
   homogeneous_col col -> string_or_list_col col ->
   Permutation (dropna col) (dropna col') ->
   infer_series_stype col' = infer_series_stype col.
-Proof.
-  intros col col' Hh Hs HP.
-  rewrite <- (infer_missing_invariant col (dropna col) Hs (dropna_idem col)).
-  assert (Hd : homogeneous_col (dropna col)).
-  { destruct Hh as [A|B]; [left | right].
-    - now rewrite dropna_idem.
-    - now apply existsb_dropna_false. }
-  rewrite (infer_perm_invariant (dropna col) (dropna col') Hd HP).
-  apply infer_missing_invariant.
-  - apply (strlist_col_of_dropna col (dropna col)); [apply dropna_idem | exact Hs].
-  - clear. rewrite dropna_idem.
-    (* dropna col' = dropna (dropna col') rewritten the other way round *)
-    reflexivity.
-Qed.
+Proof. exact infer_perm_missing_invariant. Qed.
 Print Assumptions order_and_missing_are_irrelevant.
 
-(* 13. a homogeneous column never makes inference raise *)
-Theorem homogeneous_never_raises : forall col,
-  homogeneous_col col -> infer_series_stype col <> Raises.
-Proof. exact infer_homogeneous_no_raise. Qed.
-Print Assumptions homogeneous_never_raises.
-
-(* 14. frame-level inference is exactly the per-column inference over the columns
+(* 13. frame-level inference is exactly the per-column inference over the columns
        that yield a type, in column order *)
 Theorem frame_inference_is_per_column : forall df,
-  (forall nc, In nc df -> infer_series_stype (snd nc) <> Raises) ->
   infer_df_stype df =
   Some (flat_map (fun nc => match infer_series_stype (snd nc) with
                             | Inferred (Some s) => [(fst nc, s)]
@@ -236,7 +216,7 @@ Proof. split; [|split]; try (vm_compute; reflexivity). apply Permutation_rev. Qe
 (* without homogeneity the row order matters (which is why 10 is needed) *)
 Example order_matters_without_homogeneity :
   infer_series_stype [LList [EStr "a"]; Str "a"] = Inferred None /\
-  infer_series_stype [Str "a"; LList [EStr "a"]] = Raises.
+  infer_series_stype [Str "a"; LList [EStr "a"]] = Inferred (Some st_embedding).
 Proof. split; vm_compute; reflexivity. Qed.
 
 (* a float column with a non-integral value and a missing cell; an all-integral one without *)
